@@ -58,6 +58,7 @@ type replayBody struct {
 	Run    *Run          `json:"run,omitempty"`
 	Pad    *PadCase      `json:"pad,omitempty"`
 	Fmt    *FmtCase      `json:"fmt,omitempty"`
+	SeqFmt *SeqFmtCase   `json:"seqfmt,omitempty"`
 	Record *RecordedSpec `json:"record,omitempty"`
 }
 
@@ -122,7 +123,37 @@ func main() {
 			byClass[c.Class] = append(byClass[c.Class], c)
 		}
 		var runs []Run
+		if mode == "long-quick" || mode == "long-all" {
+			// long streams: one suite per record-protection class
+			prefer := map[string]string{"tls13": "0x0304/0x1301/rsa", "cbc-explicit-iv": "0x0303/0x002f/rsa", "cbc-implicit-iv": "0x0301/0x002f/rsa",
+				"aead-explicit-nonce": "0x0303/0xc02f/rsa", "aead-xor-nonce": "0x0303/0xcca8/rsa", "stream": "0x0303/0x0005/rsa"}
+			for class, list := range byClass {
+				if mode == "long-quick" && class != "tls13" && class != "cbc-explicit-iv" {
+					continue
+				}
+				cb := list[0]
+				for _, x := range list {
+					if x.String() == prefer[class] {
+						cb = x
+					}
+				}
+				for _, cs := range cases {
+					if mode == "long-all" {
+						runs = append(runs, Run{Case: cs, Combo: cb, Dir: 0}, Run{Case: cs, Combo: cb, Dir: 1})
+					} else {
+						runs = append(runs, Run{Case: cs, Combo: cb, Dir: (cs.ID + int(obs.Seed())) % 2})
+					}
+				}
+			}
+			cases = cases[:0:0]
+			for _, r := range runs {
+				cases = append(cases, r.Case)
+			}
+		}
 		for _, cs := range cases {
+			if mode == "long-quick" || mode == "long-all" {
+				break
+			}
 			for class, list := range byClass {
 				if cs.Plan == "split" && class != "cbc-implicit-iv" {
 					continue
@@ -265,6 +296,38 @@ func main() {
 		}
 		obs.Stat("cases", n)
 		obs.Stat("records", recs)
+	case "seqfmt":
+		n, recs := 0, 0
+		seen := map[string]bool{}
+		err := obs.ReadLines(os.Args[2], func(line []byte) error {
+			var c SeqFmtCase
+			if err := json.Unmarshal(line, &c); err != nil {
+				return err
+			}
+			n++
+			recs += len(c.Recs)
+			seed := obs.Seed()*1013 + int64(n)*11
+			f, err := runSeqFmt(&c, seed)
+			if err != nil {
+				return fmt.Errorf("sequence-number case %d: %v", n, err)
+			}
+			if f != nil {
+				sig := map[string]any{"kind": f.kind, "cls": c.RP.Cls}
+				k, _ := json.Marshal(sig)
+				if !seen[string(k)] {
+					seen[string(k)] = true
+					cc := c
+					cc.Kind, cc.Seed = f.kind, seed
+					obs.Emit(obs.Candidate{Sig: sig, What: f.what, Case: replayBody{SeqFmt: &cc}})
+				}
+			}
+			return nil
+		})
+		if err != nil {
+			obs.Fatal("%v", err)
+		}
+		obs.Stat("cases", n)
+		obs.Stat("records", recs)
 	case "record":
 		count, _ := strconv.Atoi(os.Args[3])
 		combos := negotiable()
@@ -273,6 +336,23 @@ func main() {
 		for i := range specs {
 			specs[i] = randomSpec(rng, combos, i)
 		}
+		// the bulk-transfer class, always: default configuration (dynamic record sizing on), 32 KiB writes
+		// totalling 128 KiB and one write of 256 KiB, no faults, one suite per record-protection class, both
+		// directions - the size ramp of the first records and the 2^14 cap on every later one
+		prefer := map[string]bool{"0x0304/0x1301/rsa": true, "0x0303/0x002f/rsa": true, "0x0301/0x002f/rsa": true,
+			"0x0303/0xc02f/rsa": true, "0x0303/0xcca8/rsa": true, "0x0303/0x0005/rsa": true}
+		for _, cb := range combos {
+			if !prefer[cb.String()] {
+				continue
+			}
+			for dir := 0; dir < 2; dir++ {
+				for _, ws := range [][]int{{32768, 32768, 32768, 32768}, {262144}} {
+					specs = append(specs, RecordedSpec{ID: len(specs), Bulk: true, Combo: cb, Dir: dir, Writes: ws, Faults: []Fault{},
+						Mod: "mid", Seg: []string{"whole", "odd"}[dir], ReadSz: []int{16384, 70000}[dir], Seed: 4242 + len(specs)})
+				}
+			}
+		}
+		count = len(specs)
 		events := make([][]map[string]any, count)
 		var mu sync.Mutex
 		var hardErr error
@@ -315,6 +395,7 @@ func main() {
 		ws.Close()
 		obs.Stat("traces", count)
 		obs.Stat("events", total)
+		obs.Stat("bulk_traces", bulkCount(specs))
 	case "record-one":
 		var b replayBody
 		obs.ReadReplay(os.Args[2], &b)
@@ -350,6 +431,15 @@ func main() {
 				fmt.Println("reproduced:", f.what)
 				os.Exit(1)
 			}
+		case b.SeqFmt != nil:
+			f, err := runSeqFmt(b.SeqFmt, b.SeqFmt.Seed)
+			if err != nil {
+				obs.Fatal("%v", err)
+			}
+			if f != nil && f.kind == b.SeqFmt.Kind {
+				fmt.Println("reproduced:", f.what)
+				os.Exit(1)
+			}
 		case b.Fmt != nil:
 			f, err := runFmt(b.Fmt, b.Fmt.Seed)
 			if err != nil {
@@ -366,6 +456,16 @@ func main() {
 	default:
 		obs.Fatal("unknown command %q", os.Args[1])
 	}
+}
+
+func bulkCount(specs []RecordedSpec) int {
+	n := 0
+	for _, s := range specs {
+		if s.Bulk {
+			n++
+		}
+	}
+	return n
 }
 
 func lenClass(n int) string {
@@ -387,6 +487,7 @@ func lenClass(n int) string {
 // RecordedSpec fully determines one recorded execution (so that it can be re-run).
 type RecordedSpec struct {
 	ID     int     `json:"id"`
+	Bulk   bool    `json:"bulk,omitempty"`
 	Combo  Combo   `json:"combo"`
 	Opts   Opts    `json:"opts"`
 	Dir    int     `json:"dir"`
